@@ -80,6 +80,14 @@ func (r *c02run) try(v *mon.View, s, e int, path string, nest int) {
 		c.Violate(r.inst+"|in-range-panic", r.caseID, fmt.Sprintf("Slice(%d,%d) within capacity %d frames panicked: %s", s, e, v.M.Cap/v.M.C, msg), d)
 		return
 	}
+	// the same range again: every call yields its own view object
+	if nb2 := v.B.Slice(s, e); nb2.Same(nb) || nb2.HeaderAddr() == nb.HeaderAddr() {
+		c.Violate(r.inst+"|same-object", r.caseID, fmt.Sprintf("two calls of Slice(%d,%d) on one buffer returned the same view object", s, e), d)
+		return
+	} else if nb2.RawBase() != nb.RawBase() || nb2.RawLen() != nb.RawLen() || nb2.RawCap() != nb.RawCap() {
+		c.Violate(r.inst+"|repeat", r.caseID, fmt.Sprintf("a second Slice(%d,%d) gives a different window than the first", s, e), d)
+		return
+	}
 	nv := &mon.View{M: v.M.Slice(s, e), B: nb, Name: path + fmt.Sprintf("[%d:%d]", s, e)}
 	if nv.M.Cap > 0 {
 		c.Distinct(sig)
@@ -235,6 +243,49 @@ func runC02(c *core.Ctx) {
 		}
 		c.Obs("random_walks", 1)
 	}
+	// the same range sliced again after the parent moved to new storage (a
+	// growing Append): the new window must be a window of the parent's
+	// CURRENT storage
+	gi := 0
+	for _, t := range dyn.ElemTypes() {
+		for ch := 1; ch <= 3; ch++ {
+			for _, rng := range [][2]int{{0, 2}, {1, 3}, {2, 2}, {0, 4}} {
+				gi++
+				if !c.Mine(gi) {
+					continue
+				}
+				caseID := fmt.Sprintf("regrow/%s/C%d/%d-%d", t.Name, ch, rng[0], rng[1])
+				if !c.Want(caseID) {
+					continue
+				}
+				inst := "Slice[" + t.Name + "]"
+				d := map[string]any{"type": t.Name, "channels": ch, "range": rng, "scenario": "w1 := p.Slice(s,e); p.Append(src beyond p's capacity); w2 := p.Slice(s,e)"}
+				w := mon.NewWorld(t)
+				pb := t.Alloc(signal.Allocator{Channels: ch, Length: 4, Capacity: 4})
+				stampAll(w, pb)
+				pv := w.Adopt(pb, "p")
+				w.Slice(pv, rng[0], rng[1], "w1")
+				src := t.Alloc(signal.Allocator{Channels: ch, Length: 3, Capacity: 3})
+				stampAll(w, src)
+				sv := w.Adopt(src, "src")
+				c.Eval(1)
+				c.Distinct(core.NewHash().Str(caseID).Sum())
+				if ps := w.Append(pv, sv); len(ps) > 0 {
+					report(c, inst+"|regrow", caseID, ps, d)
+					continue
+				}
+				w2 := w.Slice(pv, rng[0], rng[1], "w2")
+				if w2.M.Len > 0 {
+					w.SetSample(w2, 0, w.NextStamp())
+				}
+				if ps := w.CheckAll(); len(ps) > 0 {
+					report(c, inst+"|slice-after-growth", caseID, ps, d)
+				}
+				c.Obs("slices_repeated_after_parent_growth", 1)
+			}
+		}
+	}
+	c.Floor("slices_repeated_after_parent_growth", 50)
 	c.Floor("panics_as_required", 100)
 	c.Floor("valid_ranges", 100)
 	c.Floor("slices_beyond_length", 10)
